@@ -79,6 +79,9 @@ def run(prop, tier):
         if prop in MBT:
             import dbmbt
             dbmbt.run(prop, tier, verdict, work, totals)
+        if prop in ("C14", "C18"):
+            import dbmbt
+            dbmbt.run(prop, tier, verdict, work, totals, graph=True)
         dbcheck.evidence(prop, tier, totals, t0, verdict, mc=mc)
         return verdict.exit_code()
     finally:
